@@ -486,5 +486,16 @@ def main(tier):
     return code
 
 
+def replay(obj):
+    if "behaviour" not in obj:
+        return True, obj
+    nest = obj.get("nest")
+    r = run_behaviour((obj["behaviour"], tuple(nest) if nest else None))
+    if "machinery" in r:
+        return True, r
+    return bool(r["fails"]) and common.Verdict(PROP).match_known(key_of(r)) is None, \
+        {"fails": r["fails"], "key": key_of(r), "observed": r["obs"]}
+
+
 if __name__ == "__main__":
     sys.exit(main(sys.argv[1] if len(sys.argv) > 1 else "quick"))
